@@ -98,3 +98,63 @@ Definition c16_affine (e : aexpr) (runs : list (list Z * list Z)) : sx :=
                       | Some v => L [I 0; I v; L []]
                       | None => L [I 1]
                       end) runs)].
+
+(* ---------------------------------------------------------------- scf.index_switch *)
+Definition enc_sblock (b : sblock) : sx :=
+  let pay := match sb_pay b with Some i => Z.of_nat i | None => -1 end in
+  match sb_term b with
+  | SSwitch d cs => L [I pay; I 0; sN d; L (map (fun c => L [I (fst c); sN (snd c)]) cs)]
+  | SBr t => L [I pay; I 1; sN t]
+  | SExit => L [I pay; I 2]
+  end.
+Definition c16_switch (cases : list Z) (fs : list (cst -> cst)) (runs : list (Z * list Z)) : sx :=
+  L [L (map enc_sblock (lower_switch cases));
+     L (map (fun r => enc_rres (sw_run cst (fun i s => nth i fs (fun s => s) s) FUEL
+                                       (lower_switch cases) (fst r) 0%nat (snd r, []))) runs)].
+
+(* ---------------------------------------------------------------- control-flow-hoist *)
+Definition kind_code (k : opkind) : Z :=
+  match k with KAddi => 0 | KSubi => 1 | KMuli => 2 | KDivsi => 3 | KRemsi => 4 | KFloordivsi => 5
+             | KCeildivsi => 6 | KRemui => 7 | KCall => 8 end.
+Definition c16_cfh (t e : list (opkind * option Z)) : sx :=
+  if cfh_pass t e then L [I 1; sLZ (map (fun o => kind_code (fst o)) (t ++ e))] else L [I 0; L []].
+
+(* ---------------------------------------------------------------- lower-affine for / load / store *)
+Definition zseq (n : nat) : list Z := map Z.of_nat (seq 0 n).
+Fixpoint check_trace (l : list (option Z)) (acc : list Z) : option (list Z) :=
+  match l with
+  | [] => Some (rev acc)
+  | Some v :: r => if (0 <=? v) && (v <? 16) then check_trace r (v :: acc) else None
+  | None :: _ => None
+  end.
+Definition c16_affmem (lbs ubs : list aexpr) (step : Z) (st ld : aexpr) (runs : list (Z * Z * Z)) : sx :=
+  match lower_affine_for lbs ubs step with
+  | LRaise c => L [I (-1); I c]
+  | LTrap => L [I 1]
+  | LFor l u s =>
+      let ivs := if 0 <? s then range_from (Z.to_nat (trip l u s)) l s else [] in
+      L [sLZ [l; u; s]; sLZ (lower_ops st); sLZ (lower_ops ld);
+         L (map (fun r => let '(a1, a2, a3) := r in
+                          match check_trace (map Some (zseq 16)
+                                             ++ map (fun i => lower_eval st [i; a1] []) ivs
+                                             ++ [lower_eval ld [a2; a3] []]
+                                             ++ map Some (zseq 16)) [] with
+                          | Some tr => L [I 0; sLZ tr]
+                          | None => L [I 1]
+                          end) runs)]
+  end.
+
+(* ---------------------------------------------------------------- frontend-desymrefy *)
+Definition enc_sval (v : sval) : sx := match v with VOut n => L [I 0; sN n] | VFetch r => L [I 1; sN r] end.
+Definition enc_sop (o : sop) : sx :=
+  match o with
+  | SDeclare s => L [I 0; sN s]
+  | SUpdate s v => L [I 1; sN s; enc_sval v]
+  | SFetch s r => L [I 2; sN s; sN r]
+  | SUse id args => L [I 3; sN id; L (map enc_sval args)]
+  end.
+Definition c16_desym (ops : list sop) : sx :=
+  match prune_definitions 40 ops with
+  | DLoop => L [I (-3)]
+  | DOk r => L [L (map enc_sop r); L (map enc_sop (forward ops [] [])); sB (wf_block ops [])]
+  end.
